@@ -194,6 +194,57 @@ def check_bosonic_vs_fock(ctx, sf, spec, cutoff=10):
                      f"(cutoff {cutoff + 6})", rp)
 
 
+def check_nongaussian_reference(ctx, sf, rng):
+    """Kerr, cross-Kerr and cubic phase gates exist only on the Fock back end, so "the same physics" is judged against the
+    documented operators themselves: `exp(i kappa n^2)`, `exp(i kappa n_a n_b)`, `exp(i gamma x^3 / (3 hbar))` (the latter on the
+    truncated space, as documented for the back end), applied to a random ket on the listed modes in the listed order"""
+    from scipy.linalg import expm
+    for it in range(ctx.n(10, 100)):
+        D = rng.choice([4, 5, 6])
+        n = rng.choice([1, 2, 2, 3])
+        nprng = np.random.default_rng(rng.getrandbits(32))
+        amp = nprng.normal(size=(D,) * n) + 1j * nprng.normal(size=(D,) * n)
+        amp /= np.linalg.norm(amp)
+        prep = dict(cls="Ket", regs=list(range(n)), pars=[], apars=[dict(re=amp.real.tolist(), im=amp.imag.tolist())])
+        kind = rng.choice(["Kgate", "Vgate", "CKgate"] if n >= 2 else ["Kgate", "Vgate"])
+        par = round(rng.uniform(-0.7, 0.7), 3)
+        dag = rng.random() < 0.3
+        sgn = -1 if dag else 1
+        nvec = np.arange(D)
+        if kind == "CKgate":
+            a_, b_ = rng.sample(range(n), 2)
+            op = dict(cls=kind, regs=[a_, b_], pars=[par], dagger=dag)
+            shape_a = [1] * n; shape_a[a_] = D
+            shape_b = [1] * n; shape_b[b_] = D
+            want = amp * np.exp(1j * sgn * par * nvec.reshape(shape_a) * nvec.reshape(shape_b))
+        else:
+            m = rng.randrange(n)
+            op = dict(cls=kind, regs=[m], pars=[par], dagger=dag)
+            if kind == "Kgate":
+                U = np.diag(np.exp(1j * sgn * par * nvec ** 2))
+            else:
+                a_op = np.diag(np.sqrt(np.arange(1, D)), 1)
+                x = (a_op + a_op.T) * math.sqrt(sf.hbar / 2)
+                U = expm(1j * sgn * par / (3 * sf.hbar) * (x @ x @ x))
+            want = np.moveaxis(np.tensordot(U, amp, axes=([1], [m])), 0, m)
+        spec = dict(n=n, ops=[prep, op])
+        rp = dict(kind="nongauss", spec=spec, cutoff=D)
+        ctx.oracle_cases += 1
+        ctx.count(f"nongaussian-reference:{kind}", spec, n >= 2, sample=dict(op=op, n=n, D=D))
+        for pure in (True, False):
+            try:
+                st, _ = sim.run_spec(sf, spec, "fock", cutoff_dim=D, pure=pure)
+                rho = sim.dm_of(st)
+            except Exception as e:  # noqa: BLE001
+                ctx.fail(f"raises:fock:{kind}:{type(e).__name__}", f"fock (pure={pure}) raised {type(e).__name__}: {e}", rp)
+                continue
+            rho_want = np.transpose(np.multiply.outer(want, want.conj()), [k for mm in range(n) for k in (mm, mm + n)])
+            d = float(np.max(np.abs(rho - rho_want)))
+            if d > 1e-9:
+                ctx.fail(f"fock-vs-documented-operator:{kind}", f"{kind}{'.H' if dag else ''}({par}) | {op['regs']} on a {n}-mode ket "
+                         f"(cutoff {D}, pure={pure}) differs from the documented operator by {d:.3g}", rp)
+
+
 def rand_bosonic_nongaussian(rng, n):
     ops = []
     for m in range(n):
@@ -302,6 +353,7 @@ def run(ctx, sf):
         spec = dict(n=n, ops=ops_)
         ctx.count("program:mid-circuit-prep", spec, True, sample=spec)
         check_program(ctx, sf, spec, fock=True)
+    check_nongaussian_reference(ctx, sf, rng)
     for it in range(ctx.n(30, 300)):
         spec = rand_fock_program(rng, rng.choice([1, 2, 2, 3]))
         ctx.count("fock-pure-vs-mixed", spec, nontrivial(spec) or spec["n"] >= 2)
@@ -332,6 +384,8 @@ def replay(ctx, rp):
         check_pure_vs_mixed(ctx, sf, rp["spec"], rp.get("cutoff", 7))
     elif rp.get("kind") == "bosonic-vs-fock":
         check_bosonic_vs_fock(ctx, sf, rp["spec"])
+    elif rp.get("kind") == "nongauss":
+        check_pure_vs_mixed(ctx, sf, rp["spec"], rp.get("cutoff", 6))
     else:
         check_program(ctx, sf, rp["spec"])      # (a `modes` selection is re-drawn from the same PRNG state)
     sf.hbar = 2
